@@ -264,7 +264,7 @@ impl Check for C08 {
         });
         // compound paths: quad+quad, cubic+line+quad, curve after Z, curve after lone MoveTo, curve first; transforms; clip
         let gs = grid(&[0.4, 6.1, 14.2]);
-        run.bound("compound paths", format!("9^4 (quad+quad, cubic+line+quad+Z+quad, curve-first, curve after Z) x 2 rules x {} transforms x fill/clip", tf.len()));
+        run.bound("compound paths", format!("9^4 (quad+quad, cubic+line+quad+Z+quad, curve-first, curve after Z, MoveTo onto the current point) x 2 rules x {} transforms x fill/clip", tf.len()));
         run.par(gs.len() * gs.len(), |s, l| {
             let (a, b) = (gs[s / gs.len()], gs[s % gs.len()]);
             for c in &gs {
@@ -274,6 +274,10 @@ impl Check for C08 {
                         vec![POp::M(a.0, a.1), POp::C(b.0, b.1, c.0, c.1, d.0, d.1), POp::L(6.1, 0.4), POp::Q(c.0, c.1, b.0, b.1), POp::Z, POp::Q(d.0, d.1, 9.6, 9.6)],
                         vec![POp::Q(a.0, a.1, b.0, b.1), POp::C(c.0, c.1, d.0, d.1, 2.7, 9.6)],
                         vec![POp::M(a.0, a.1), POp::L(b.0, b.1), POp::L(c.0, c.1), POp::Z, POp::C(d.0, d.1, 9.6, 2.7, 2.7, 9.6), POp::M(6.1, 6.1), POp::Q(d.0, d.1, 0.4, 9.6)],
+                        // a MoveTo exactly onto the current point still ends the open subpath (it is
+                        // closed back to *its* start) and begins a new one there
+                        vec![POp::M(a.0, a.1), POp::Q(b.0, b.1, c.0, c.1), POp::M(c.0, c.1), POp::Q(d.0, d.1, 9.6, 2.7)],
+                        vec![POp::M(a.0, a.1), POp::L(b.0, b.1), POp::M(b.0, b.1), POp::C(c.0, c.1, d.0, d.1, 2.7, 9.6), POp::M(2.7, 9.6), POp::L(9.6, 9.6)],
                     ];
                     for (si, ops) in shapes.into_iter().enumerate() {
                         for eo in [false, true] {
